@@ -7,6 +7,7 @@
 #include <type_traits>
 #include <sys/types.h>
 #include <sys/wait.h>
+#include <signal.h>
 
 #if defined(__SANITIZE_ADDRESS__)
 #   define PURE_SANITIZED 1
@@ -29,10 +30,21 @@ namespace pure {
             return false;
         if ( !a.want( name ))
             return false;
+        static const bool timing = getenv( "PURE_TIMING" ) != nullptr;     // optional: elapsed time at each variant start
+        if ( timing ) fprintf( stderr, "[t] %8.2f s  before %s\n", wall_now() - reg().t0, name.c_str());
         set_variant( name );
         return true;
     }
     inline unsigned worker_count() { return args().thorough ? 16u : 4u; }
+    // budget of the sampled (non-exhaustive) parts; the sanitizer build is 3-5 times slower per case
+    inline uint64_t budget( uint64_t quick, uint64_t thorough )
+    {
+#ifdef PURE_SANITIZED
+        return args().n( std::max<uint64_t>( 1, quick * 2 / 5 ), std::max<uint64_t>( 1, thorough * 2 / 5 ));
+#else
+        return args().n( quick, thorough );
+#endif
+    }
 
     template <class F>
     inline void parallel( unsigned n, F fn )
@@ -51,6 +63,13 @@ namespace pure {
     inline Gate& gate() { static Gate* g = new Gate; return *g; }
     inline std::atomic<uint64_t>& suppressed() { static std::atomic<uint64_t> s{ 0 }; return s; }
 
+    // cheap pre-check for hot failure paths: counts the occurrence and tells whether the texts are still worth building
+    inline bool report_wanted( const char* prop_id, std::string const& key )
+    {
+        if ( gate().pass( std::string( prop_id ) + "|" + key )) return true;
+        suppressed().fetch_add( 1, std::memory_order_relaxed );
+        return false;
+    }
     __attribute__((noinline)) inline void report( const char* prop_id, std::string const& key, std::string const& text, std::string const& witness )
     {
         if ( gate().pass( std::string( prop_id ) + "|" + key ))
@@ -142,11 +161,17 @@ namespace pure {
         std::string out;
         char buf[4096];
         ssize_t n;
-        while (( n = read( fd[0], buf, sizeof buf )) > 0 ) out.append( buf, size_t( n ));
+        while (( n = read( fd[0], buf, sizeof buf )) > 0 ) {
+            out.append( buf, size_t( n ));
+            // the first report line is all that is needed; symbolising the stack trace of a dying child costs seconds
+            size_t p = out.find( "runtime error: " );
+            if ( p == std::string::npos ) p = out.find( "ERROR: AddressSanitizer" );
+            if ( p != std::string::npos && out.find( '\n', p ) != std::string::npos ) { kill( pid, SIGKILL ); break; }
+        }
         close( fd[0] );
         int st = 0;
         waitpid( pid, &st, 0 );
-        if ( WIFEXITED( st ) && WEXITSTATUS( st ) == 0 )
+        if ( WIFEXITED( st ) && WEXITSTATUS( st ) == 0 && out.find( "runtime error: " ) == std::string::npos )
             return r;
         r.ok = false;
         r.raw = out.substr( 0, 1200 );
